@@ -78,9 +78,9 @@ func checkC19(r *Run) error {
 	corpus := gen.HarvestCorpus(r.Env.Repo)
 	st := &c19Stats{tuples: map[string]bool{}, faultsFired: map[string]int{}, faultsConf: map[string]int{}, clause: map[string]int{},
 		families: map[string]int{}, optShapes: map[string]int{}, probes: map[string]int{}, leftovers: map[string]int{}}
-	roundSize, sweepN := 120, 5
+	roundSize, sweepN := 320, 4
 	if r.Tier == "thorough" {
-		roundSize, sweepN = 240, 14
+		roundSize, sweepN = 480, 14
 	}
 	rounds := 0
 	for r.Left() > 0 {
@@ -162,6 +162,10 @@ func c19Gen(r *Run, rng *gen.Rng, corpus []string) *c19Inv {
 			".tsh-draft.tmp", ".tsh-old.tmp", "draft.tmp", ".#main.tsh", "main.tsh~", ".main.tsh.swp", "#main.tsh#", "main.tsh.orig", "main.tsh.lock", "core", "nohup.out", "~$main.tsh", "main.tmp.tsh", "tmp.tsh",
 			// names spelled like switches a command might have (a value is a value wherever it stands)
 			"--help", "-h", "--version", "-v", "--", "-", "-i", "-o", "--out", "-t.tsh", "--in.tsh"})
+		if rng.Chance(7) {
+			// (the temp-like and switch-like names get a share of their own: the pool above is large)
+			nm = rng.Pick([]string{".tsh-draft.tmp", ".tsh-old.tmp", "draft.tmp", "main.tsh~", ".#main.tsh", "#main.tsh#", "main.tsh.lock", "--help", "-h", "--version", "-o"})
+		}
 		// imports are relative to the main file's directory: keep the directory, change the base name
 		nm = path.Join(path.Dir(main), path.Base(nm))
 		if rng.Chance(33) && path.Dir(main) == "." && len(gw.Closure) == 1 {
@@ -219,7 +223,7 @@ func c19Gen(r *Run, rng *gen.Rng, corpus []string) *c19Inv {
 		gw.Set(victim, data)
 		inv.ProgKind = "mutated:" + desc
 	}
-	mount := rng.Pick([]string{"/sim/m", "/w/my proj", "/home/u/src", "/home/u/.dotfiles/p", "/w/proj-1.2/src", "/w/100% (x)", "/w/projet-été", "/w/greeter:v2", "/w/backup-2026-09-24T10:30:00"})
+	mount := rng.Pick([]string{"/sim/m", "/w/my proj", "/home/u/src", "/home/u/.dotfiles/p", "/w/proj-1.2/src", "/w/100% (x)", "/w/projet-été", "/w/greeter:v2", "/w/backup-2026-09-24T10:30:00", "/w/copy\\2", "/w/say \"hi\""})
 	exe := rng.Pick([]string{"/sim/x", "/opt/tsh/bin"})
 	// an input that looks like somebody's temporary file is most interesting where temporary files
 	// are made: in the output directory itself
@@ -509,7 +513,7 @@ func c19Gen(r *Run, rng *gen.Rng, corpus []string) *c19Inv {
 		MapMode: rng.Pick([]string{"canonical", "reversed", "shuffle"}), MapSeed: rng.U64(), Epoch: int64(rng.Intn(1 << 30)), Budgets: &b}
 	inv.Spec.StdoutClosed = rng.Chance(3) // (tsh has nothing to say on standard output; if it has, nobody may be listening)
 	for _, f := range files {
-		if !f.Dir && f.Link == "" && (strings.HasPrefix(f.Path, mount+"/") && !strings.HasPrefix(f.Path, outAbs+"/") || strings.HasPrefix(f.Path, exe+"/")) {
+		if !f.Dir && f.Link == "" && (strings.HasPrefix(f.Path, mount+"/") && !(strings.HasPrefix(outAbs, mount+"/") && strings.HasPrefix(f.Path, outAbs+"/")) || strings.HasPrefix(f.Path, exe+"/")) {
 			inv.Protected = append(inv.Protected, f.Path)
 		}
 	}
@@ -1056,6 +1060,17 @@ func c19Probes(st *c19Stats, inv *c19Inv, res *TshResult, refs map[string]*c19Re
 	if len(uniq(inv.Targets)) == 2 {
 		st.probes["both_targets"]++
 	}
+	if b0 := path.Base(inv.InArg); strings.HasPrefix(b0, ".tsh-") && strings.HasSuffix(b0, ".tmp") && inv.Family == "base" {
+		st.probes["input_named_like_staging_file"]++
+		if path.Dir(inv.kpath(inv.InArg)) == inv.outDir() {
+			st.probes["input_named_like_staging_file_in_output_dir"]++
+			for _, f := range inv.Spec.Files {
+				if path.Clean(f.Path) == inv.kpath(inv.InArg) && f.Age > 600 && res.Exit == 0 {
+					st.probes["input_named_like_staging_file_in_output_dir_old_exit0"]++
+				}
+			}
+		}
+	}
 	base := path.Base(inv.InArg)
 	if strings.Count(base, ".") >= 2 {
 		st.probes["input_several_dots"]++
@@ -1374,7 +1389,7 @@ func c19Round(r *Run, rng *gen.Rng, st *c19Stats, corpus []string, roundSize, sw
 	// that path - the first ones after the fault, where the handling happens - fails once more in
 	// every way: the sequence numbers come from the faulted run itself, which is deterministic.
 	rec := []*c19Inv{}
-	maxRec := 600
+	maxRec := 400
 	if r.Tier == "thorough" {
 		maxRec = 4000
 	}
